@@ -171,3 +171,7 @@ PROPERTY = Property(
          "smaller rank, equal probabilities share a rank (exact float comparisons), argmax has rank 1; n >= 3: sum p + predict_draw = 1 (n^2 x 1e-13); distinct by SHA-1",
     assumptions=[],
 )
+
+from vf import opt as _opt  # noqa: E402
+
+PROPERTY.clauses.append(_opt.optimised("C11", next(c for c in PROPERTY.clauses if c.name == "rank-consistency"), quick=64, thorough=640))
